@@ -605,11 +605,15 @@ def writes_none(body, rv):
     return False
 
 
-def bool_source(body, local, neg=False, depth=0):
-    """trace a bool local back to the call that produced it, through copies and `Not`: (call_block, negated) or None"""
+def bool_source(body, local, neg=False, depth=0, at=None):
+    """trace a bool local back to the call that produced it, through copies and `Not`: (call_block, negated) or None.
+    `at`: the block where the value is read - of several assignments only those that can flow there count (an assignment
+    in a block from which `at` is unreachable is not a reaching definition)"""
     if depth > 8:
         return None
     ds = [d for d in body.defs.get(local, []) if d[0] in ("stmt", "call")]
+    if len(ds) > 1 and at is not None:
+        ds = [d for d in ds if at in body.reach_from(d[1])]
     if len(ds) != 1:
         return None
     d = ds[0]
@@ -619,11 +623,11 @@ def bool_source(body, local, neg=False, depth=0):
     if "un" in rv and rv["un"]["op"] == "Not":
         p = op_place(rv["un"]["x"])
         if p and not p["p"]:
-            return bool_source(body, p["l"], not neg, depth + 1)
+            return bool_source(body, p["l"], not neg, depth + 1, d[1])
     if "use" in rv:
         p = op_place(rv["use"])
         if p and not p["p"]:
-            return bool_source(body, p["l"], neg, depth + 1)
+            return bool_source(body, p["l"], neg, depth + 1, d[1])
     return None
 
 
@@ -637,7 +641,7 @@ def bool_arms(body, call_block):
         p = op_place(t["op"])
         if p is None or p["p"]:
             continue
-        src = bool_source(body, p["l"])
+        src = bool_source(body, p["l"], at=b)
         if not src or src[0] != call_block:
             continue
         tg = {v: bb for v, bb in t["targets"]}
